@@ -81,6 +81,43 @@ func policyFor(kind string) seccomp.Policy {
 	switch kind {
 	case "invalid":
 		return seccomp.Policy{DefaultAction: seccomp.ActionAllow, Syscalls: []seccomp.SyscallGroup{{Action: seccomp.ActionErrno, Names: []string{"no_such_syscall"}}}}
+	case "wrap16":
+		// exactly 65536 instructions: uint16(len) is 0.  Single-name groups cost three instructions each; the
+		// remainder is made up with extra names in the first group.
+		names := vd.TableNames("x86_64")
+		p := seccomp.Policy{DefaultAction: seccomp.ActionAllow}
+		for g := 0; g < 21843; g++ {
+			p.Syscalls = append(p.Syscalls, seccomp.SyscallGroup{Action: seccomp.ActionErrno, Names: []string{names[g%len(names)]}})
+		}
+		for tries := 0; tries < 8; tries++ {
+			insts, err := p.Assemble()
+			if err != nil {
+				break
+			}
+			d := 65536 - len(insts)
+			switch {
+			case d == 0:
+				return p
+			case d > 0 && d < 300:
+				have := map[string]bool{}
+				for _, n := range p.Syscalls[0].Names {
+					have[n] = true
+				}
+				for _, n := range names {
+					if d > 0 && !have[n] {
+						p.Syscalls[0].Names = append(p.Syscalls[0].Names, n)
+						d--
+					}
+				}
+			case d > 0:
+				for k := 0; k < d/3; k++ {
+					p.Syscalls = append(p.Syscalls, seccomp.SyscallGroup{Action: seccomp.ActionErrno, Names: []string{names[k%len(names)]}})
+				}
+			default:
+				p.Syscalls = p.Syscalls[:len(p.Syscalls)-(-d+2)/3]
+			}
+		}
+		return p
 	case "oversize":
 		var ncs []seccomp.NameWithConditions
 		names := []string{"kexec_load", "kexec_file_load", "swapon", "swapoff", "acct", "settimeofday", "reboot", "init_module", "delete_module", "pivot_root",
@@ -617,7 +654,7 @@ func genHistory(r *rand.Rand, profile string) History {
 			case 0:
 				op.Policy = "invalid"
 			case 1:
-				op.Policy = "oversize"
+				op.Policy = []string{"oversize", "oversize", "wrap16"}[r.Intn(3)]
 			case 2:
 				// flag words the kernel refuses: an unknown bit alone and next to each known one
 				op.Flags = []uint32{1 << 10, 0x80000000, 1<<6 | 1, 1<<10 | 2, 1<<10 | 3, 1<<31 | 2, 1<<7 | 2 | 1}[r.Intn(7)]
@@ -848,7 +885,7 @@ func main() {
 	start := time.Now()
 	sum := &Summary{Stream: "kernel", Profile: *profile, Seed: *seed, Distribution: map[string]int{}, Samples: []string{}, Mismatches: []Mismatch{},
 		Rule: "seeded histories of LoadFilter/Supported calls (pinned threads, privileged/unprivileged, flags {0,tsync,log,tsync|log,unknown bits, new_listener alone/with log/with tsync}; faults: seccomp(2) refused with ENOSYS/EPERM/EACCES, prctl refused; GOMAXPROCS 1 or 4, valid/invalid/oversize policies, unpinned loads with forced migration attempts, up to 63 extra threads in different states), each run in a fresh child process on the host kernel; a history is non-trivial if it contains at least one load that reaches the kernel; distinct by history JSON"}
-	for _, k := range []string{"valid", "oversize"} {
+	for _, k := range []string{"valid", "oversize", "wrap16"} {
 		lens[k] = policyLen(k)
 	}
 	model, err := vd.StartModel(*modelPath)
